@@ -6,6 +6,7 @@ import (
 	"go/token"
 	"go/types"
 	"sort"
+	"strings"
 
 	"zverif/checker/an"
 )
@@ -42,7 +43,7 @@ func muCall(info *types.Info, n ast.Node, mu *types.Var, methods ...string) bool
 			return true
 		}
 		se, ok := ast.Unparen(c.Fun).(*ast.SelectorExpr)
-		if !ok || !selField(info, se.X, mu) {
+		if !ok || !selFieldOrAlias(info, se.X, mu) {
 			return true
 		}
 		for _, name := range methods {
@@ -61,7 +62,29 @@ func deferredMuCall(info *types.Info, n ast.Node, mu *types.Var, method string) 
 		return false
 	}
 	se, ok := ast.Unparen(ds.Call.Fun).(*ast.SelectorExpr)
-	return ok && selField(info, se.X, mu) && se.Sel.Name == method
+	return ok && selFieldOrAlias(info, se.X, mu) && se.Sel.Name == method
+}
+
+// aliasScope is the function body in which single-definition locals are resolved (set by c31Mutex).
+var aliasScope ast.Node
+
+// selFieldOrAlias: e selects field f, or is a single-definition local defined as (the address of) such a selection.
+func selFieldOrAlias(info *types.Info, e ast.Expr, f *types.Var) bool {
+	if selField(info, e, f) {
+		return true
+	}
+	if aliasScope == nil {
+		return false
+	}
+	dd := defOf(info, aliasScope, e)
+	if dd == nil {
+		return false
+	}
+	dd = ast.Unparen(dd)
+	if u, ok := dd.(*ast.UnaryExpr); ok && u.Op == token.AND {
+		dd = ast.Unparen(u.X)
+	}
+	return selField(info, dd, f)
 }
 
 func c31Mutex(p *an.Prog, r *an.R) {
@@ -80,6 +103,7 @@ func c31Mutex(p *an.Prog, r *an.R) {
 		fname := an.FuncName(f)
 		r.Fn(fname)
 		info := d.Pkg.TypesInfo
+		aliasScope = d.Decl.Body
 		g := an.NewG(info, d.Decl.Body)
 		fParam := an.Param(info, d.Decl, len(d.Decl.Type.Params.List)-1)
 		if spec.name == "(*indexMutex).With" {
@@ -122,6 +146,34 @@ func c31Mutex(p *an.Prog, r *an.R) {
 			}
 			return true
 		})
+		// helper functions of the package that touch the running set (mark/unmark extracted from With)
+		helpers := map[*types.Func]*an.DeclInfo{}
+		p.AllDecls(func(hf *types.Func, hd *an.DeclInfo) {
+			if hd.Pkg != d.Pkg || hd.Decl.Body == nil || hf == f || strings.HasSuffix(p.Fset.Position(hd.Decl.Pos()).Filename, "_test.go") {
+				return
+			}
+			touches := false
+			ast.Inspect(hd.Decl.Body, func(m ast.Node) bool {
+				if e, ok := m.(ast.Expr); ok && selField(info, e, running) {
+					touches = true
+				}
+				return true
+			})
+			if touches {
+				helpers[hf] = hd
+				bodies = append(bodies, hd.Decl.Body)
+			}
+		})
+		removesMarker := func(n ast.Node) bool {
+			hit := false
+			ast.Inspect(n, func(m ast.Node) bool {
+				if c, ok := m.(*ast.CallExpr); ok && an.IsBuiltin(info, c, "delete") && len(c.Args) == 2 && selField(info, c.Args[0], running) {
+					hit = true
+				}
+				return true
+			})
+			return hit
+		}
 		acc := 0
 		for _, body := range bodies {
 			bg := an.NewG(info, body)
@@ -158,6 +210,47 @@ func c31Mutex(p *an.Prog, r *an.R) {
 			}
 			return true
 		})
+		if already == nil {
+			// `busy := m.mark(repo)` where the helper returns the ok of a lookup in running
+			ast.Inspect(d.Decl.Body, func(n ast.Node) bool {
+				as, ok := n.(*ast.AssignStmt)
+				if !ok || len(as.Lhs) != 1 || len(as.Rhs) != 1 {
+					return true
+				}
+				c, ok := ast.Unparen(as.Rhs[0]).(*ast.CallExpr)
+				if !ok {
+					return true
+				}
+				hd := helpers[an.Callee(info, c)]
+				if hd == nil {
+					return true
+				}
+				var okVar types.Object
+				ast.Inspect(hd.Decl.Body, func(m ast.Node) bool {
+					if a2, ok := m.(*ast.AssignStmt); ok && len(a2.Lhs) == 2 && len(a2.Rhs) == 1 {
+						if ix, ok := ast.Unparen(a2.Rhs[0]).(*ast.IndexExpr); ok && selField(info, ix.X, running) {
+							if id, ok := a2.Lhs[1].(*ast.Ident); ok {
+								okVar = info.ObjectOf(id)
+							}
+						}
+					}
+					return true
+				})
+				returnsIt := okVar != nil
+				ast.Inspect(hd.Decl.Body, func(m ast.Node) bool {
+					if rs, ok := m.(*ast.ReturnStmt); ok && (len(rs.Results) != 1 || !isIdentOf(info, rs.Results[0], okVar)) {
+						returnsIt = false
+					}
+					return true
+				})
+				if returnsIt {
+					if id, ok := as.Lhs[0].(*ast.Ident); ok {
+						already = info.ObjectOf(id)
+					}
+				}
+				return true
+			})
+		}
 		if !r.Anchor(already != nil, fname+"/membership test of running") {
 			continue
 		}
@@ -165,21 +258,42 @@ func c31Mutex(p *an.Prog, r *an.R) {
 			return an.UsesObj(info, cond, already) && !truth
 		}
 		// marker removal installed only on the not-already-running path
+		nRemovals := 0
 		for _, l := range g.Locs(func(ast.Node) bool { return true }) {
 			removes := false
-			ast.Inspect(g.Node(l), func(m ast.Node) bool {
-				if c, ok := m.(*ast.CallExpr); ok && an.IsBuiltin(info, c, "delete") && len(c.Args) == 2 && selField(info, c.Args[0], running) {
+			if ds, isDefer := g.Node(l).(*ast.DeferStmt); isDefer {
+				// a deferred literal, a deferred local closure, or a deferred helper that removes the marker
+				switch fn := ast.Unparen(ds.Call.Fun).(type) {
+				case *ast.FuncLit:
+					removes = removesMarker(fn.Body)
+				case *ast.Ident:
+					if dd := defOf(info, d.Decl.Body, fn); dd != nil {
+						if fl, ok := ast.Unparen(dd).(*ast.FuncLit); ok {
+							removes = removesMarker(fl.Body)
+						}
+					}
+				}
+				if hd := helpers[an.Callee(info, ds.Call)]; hd != nil && removesMarker(hd.Decl.Body) {
 					removes = true
 				}
-				return true
-			})
+			} else if _, isAssign := g.Node(l).(*ast.AssignStmt); !isAssign {
+				// a direct (non-deferred) removal in With's own body
+				an.Inspect(g.Node(l), false, func(m ast.Node) bool {
+					if c, ok := m.(*ast.CallExpr); ok && an.IsBuiltin(info, c, "delete") && len(c.Args) == 2 && selField(info, c.Args[0], running) {
+						removes = true
+					}
+					return true
+				})
+			}
 			if !removes {
 				continue
 			}
+			nRemovals++
 			ok := g.GuardedBy(l, notAlready, nil)
 			r.Check(ok, "C31.R1", fname+"/marker-removed-only-by-owner", g.Node(l).Pos(), "the running marker is removed only on the path that did not find it already set",
 				"the removal of the running marker is installed before/without the alreadyRunning test: a skipped call deletes the marker of the operation that is still running, and a third call for the same repository is admitted concurrently")
 		}
+		r.Floor("C31.R1.marker-removals", 1, nRemovals)
 		// f() only when not already running
 		for _, l := range fCalls {
 			if isF(l) {
